@@ -247,6 +247,10 @@ func (c *Ctx) account(module, cfg, mode string, res *tlc.Result) {
 // expected to hold on the unchanged specification: a failure here is a
 // machinery/spec defect (exit 2), never a VIOLATION by itself (DESIGN §3.4).
 func (c *Ctx) ModelCheck(module, cfg string, opts ...TLCOpt) (*tlc.Result, bool) {
+	if os.Getenv("VERIF_DEV_SKIP_MODEL") != "" { // development only; never set by registered commands
+		c.Inconclusive("VERIF_DEV_SKIP_MODEL set: design model not checked")
+		return nil, true
+	}
 	o := c.tlcOpts(module, cfg, opts)
 	res, err := tlc.Run(o)
 	c.account(module, cfg, "exhaustive", res)
